@@ -52,6 +52,15 @@ func DecodeMetadata(input any, result any) error {
 	v := reflect.ValueOf(input)
 	if v.Kind() == reflect.Struct {
 		f := v.FieldByName("Properties")
+		// Properties may be of a type defined as map[string]string (like metadata.Properties): convert it so that
+		// the assertion below cannot panic. Any other map type does not hold metadata properties and is ignored.
+		if f.IsValid() && f.Kind() == reflect.Map {
+			if mapType := reflect.TypeOf(map[string]string(nil)); f.Type().ConvertibleTo(mapType) {
+				f = f.Convert(mapType)
+			} else {
+				f = reflect.Value{}
+			}
+		}
 		if f.IsValid() && f.Kind() == reflect.Map {
 			input = f.Interface().(map[string]string)
 		}
